@@ -11,6 +11,8 @@ import (
 
 type intrinsic func(ex *Exec, fn *ssa.Function, args []Value) Value
 
+var extraIntrinsics []func(map[string]intrinsic)
+
 const vsPkg = "github.com/daeuniverse/dae/zz_vs"
 
 func skipInit(path string) bool {
@@ -271,6 +273,9 @@ func intrinsicTable() map[string]intrinsic {
 	addBytealg(t)
 	addSync(t)
 	addMisc(t)
+	for _, f := range extraIntrinsics {
+		f(t)
+	}
 	return t
 }
 
